@@ -10,7 +10,7 @@ from pymap.concurrent import Event
 from pymap.config import IMAPConfig
 from pymap.context import socket_info, connection_exit
 from pymap.exceptions import NotAllowedError, NotSupportedError, \
-    CloseConnection
+    CloseConnection, MailboxNotFound
 from pymap.fetch import MessageAttributes
 from pymap.interfaces.login import LoginInterface
 from pymap.interfaces.session import SessionInterface
@@ -285,7 +285,9 @@ class ConnectionState:
 
     async def do_close(self, cmd: CloseCommand) -> _CommandRet:
         if not self.selected.readonly:
-            await self.session.expunge_mailbox(self.selected)
+            with suppress(MailboxNotFound):
+                # deleted by another session, nothing is left to expunge
+                await self.session.expunge_mailbox(self.selected)
         self._selected = None
         return ResponseOk(cmd.tag, cmd.command + b' completed.'), None
 
